@@ -97,6 +97,8 @@ func runC07(c *fw.Case) {
 	if direct {
 		dir = filepath.Join(c.DiskDir(), "wal")
 		c.Obs("programs_with_the_direct_io_writer", 1)
+		// ... with a file size limit far above the 8 KiB write buffer, so that single log files are flushed many times
+		limit = gen.Pick(r, uint64(40000), 1<<20, 1<<20)
 	}
 	_ = os.MkdirAll(dir, 0755)
 	// the base path is handed over in a spelling that is valid but not necessarily in its cleaned form (trailing
@@ -158,6 +160,9 @@ func runC07(c *fw.Case) {
 	var want []string
 	var prog []string
 	steps := 1 + r.Intn(80)
+	if direct {
+		steps = 120 + r.Intn(200)
+	}
 	rotations, big := 0, 0
 	durable := 0 // number of appended records that are on disk for sure (everything up to the last AppendSync / Rotate)
 	for s := 0; s < steps; s++ {
